@@ -281,7 +281,9 @@ func isGlobal(v *pw.Val, name string) bool {
 
 func (c *Ctx) c14Register() {
 	r := c.R
-	_, paths, _, err := c.runFunc("GobRegister", pw.Policy{})
+	_, paths, _, err := c.runFunc("GobRegister", pw.Policy{Inline: func(fn *types.Func, d int) bool {
+		return inlineUnexported(fn, d) && fn.Name() != "recursiveTypeHash"
+	}})
 	if err != nil {
 		r.Unknown("R14.3", "GobRegister", err.Error())
 		return
